@@ -16,7 +16,7 @@ extern unsigned g_js_calls; extern const char *g_js_str; extern unsigned g_js_le
 extern size_t g_len_cpy, g_len_cat[3];
 extern const char *reg_p[8]; extern size_t reg_n[8]; extern unsigned reg_cnt;
 #define ENC_GHOSTS g_cpy_dst, g_cpy_src, g_cat_calls, __CPROVER_object_whole(g_cat_dst), __CPROVER_object_whole(g_cat_src), g_spf_dst, g_spf_a, g_spf_b, \
-	g_spf_c, g_js_calls, g_js_str, g_js_len, g_js_alg, g_js_ret, g_len_cpy, __CPROVER_object_whole(g_len_cat), g_json_dumps_flags, \
+	g_spf_c, g_js_calls, g_js_str, g_js_len, g_js_alg, g_js_ret, g_len_cpy, __CPROVER_object_whole(g_len_cat), g_json_dumps_flags, g_json_dumped, \
 	__CPROVER_object_whole(reg_p), __CPROVER_object_whole(reg_n), reg_cnt
 
 /* jwt_encode: header "." payload "." signature.
